@@ -36,6 +36,7 @@ type histWorld struct {
 	fwd      erpc.Session // proxy -> backend
 	fwdConn  *Conn
 	fwdConnP *Conn // the proxy's end of the backend connection        // backend end of the proxy-backend connection
+	fwdNoise bool // the forwarder lets other replies be received before it hands a finished call back
 	viaProxy erpc.Session // caller -> proxy
 	direct   erpc.Session // caller -> backend
 	closed   erpc.Session // a session that was closed at start
@@ -67,8 +68,17 @@ type fwdT struct{ w *histWorld }
 func (f fwdT) Call(uri string, arg interface{}, result interface{}, setting ...erpc.MessageSetting) erpc.CallCmd {
 	f.w.mu.Lock()
 	s := f.w.fwd
+	noise := f.w.fwdNoise
 	f.w.mu.Unlock()
-	return s.Call(uri, arg, result, setting...)
+	cmd := s.Call(uri, arg, result, setting...)
+	if noise {
+		// other traffic of the process is received between the completion of the forwarded call and the moment the
+		// plugin looks at its reply (what concurrent proxied calls do to each other, made deterministic)
+		for i := 0; i < 3; i++ {
+			s.Call("/px/echo", &Arg{Tag: "noise", Pad: "RM1zzz-noise"}, new(Res), erpc.WithBodyCodec('j'))
+		}
+	}
+	return cmd
 }
 func (f fwdT) Push(uri string, arg interface{}, setting ...erpc.MessageSetting) *erpc.Status {
 	f.w.mu.Lock()
